@@ -337,6 +337,7 @@ def len_provenance(ctx):
     mut.replace_expr('scripts', 'decode_num', '-num', 'num', 'decode_num: sign dropped'),
     mut.replace_stmt('scripts', 'encode_num', "return b''", "return b'\\x00'", 'encode_num: zero -> 00'),
     mut.replace_expr('scripts', 'encode_num', 'encoded[-1] & 128', 'encoded[-1] >= 127', 'encode_num: sign-byte test >= 0x7f'),
+    mut.replace_stmt('scripts', 'decode_num', 'negative = False', 'if len(encoded) > 4:\n    raise ScriptError("overflow")\nnegative = False', 'decode_num refuses 5-byte numbers'),
 ])
 def scriptnum(ctx):
     """encode_num: 0 -> empty; little-endian magnitude of abs(num); sign in bit 7 of the last byte, extra byte (80 /
@@ -397,6 +398,24 @@ def scriptnum(ctx):
     rets = [e for e in exits if e.kind == 'return']
     empty = [e for e in rets if (('cmp', '==', enc, b''), True) in e.pc]
     ctx.require(bool(empty) and term(empty[0].value) == 0, q, 'empty vector does not decode to 0', fn)
+    # total on every encoding encode_num produces: 1..5 bytes (+-2^31 and BIP65 lock times up to 2^32-1 need five)
+    for e in exits:
+        if e.kind != 'raise':
+            continue
+        for size in (1, 2, 3, 4, 5):
+            decided = []
+            for (t, pol) in e.pc:
+                try:
+                    val = intv.truth_eval(intv.specialise(t, {('len', enc): size, ('cmp', '==', enc, b''): False}), {})
+                    decided.append(None if isinstance(val, tuple) else bool(val) == pol)
+                except (intv.Unknown, KeyError, TypeError, ZeroDivisionError):
+                    decided.append(None)
+            if decided and all(d is True for d in decided):
+                ctx.violate(q, 'raises for every encoding of %d bytes (%s)' % (size, ' and '.join(('' if pol else 'not ') + show(t) for t, pol in e.pc)[:160]), e.node or fn,
+                            'encode_num produces up to 5 bytes for |n| >= 2^31 (results of ADD / SUB / NEGATE on 4-byte operands) and BIP65 lock times up to 2^32-1 need five: decode_num(encode_num(n)) fails; the 4-byte operand limit belongs to is_arithmetic')
+                return
+            if not any(d is False for d in decided):
+                ctx.unsure('decode_num: raises on a path not excluded for %d-byte encodings: %s' % (size, ' and '.join(('' if pol else 'not ') + show(t) for t, pol in e.pc)[:160]))
     rest = [e for e in rets if e not in empty]
     v = term(it.result_value(rest, base_pc_len=1))
     ctx.saw('decode_num(non-empty) -> %s' % show(v))
